@@ -329,7 +329,10 @@ def _c18_cases(tier, seed):
     for _ in range(n):
         steps = []
         for _s in range(rnd.randint(1, 4)):
-            steps.append((rnd.choice(["calibrate", "set_samplers", "set_scheduler"]), _lineup(rnd, n=rnd.randint(1, 3))))
+            # replacement line-ups take over at an arbitrary round-robin position with whatever history there is: only
+            # best-batch samplers of batch size 1 are admissible everywhere (C18 is about labels, not sizes)
+            steps.append((rnd.choice(["calibrate", "set_samplers", "set_scheduler"]),
+                          [(k, 1 if k == "best" else b) for k, b in _lineup(rnd, n=rnd.randint(1, 3))]))
         yield {"lineup": _lineup(rnd, n=rnd.randint(1, 3)), "steps": steps, "seed": rnd.randrange(100)}
 
 
